@@ -542,6 +542,7 @@ class Index:
         self.src_root = os.path.join(self.repo_root, 'src')
         self._modules: Dict[str, Optional[Module]] = {}
         self._all_names: Optional[List[str]] = None
+        self._texts: Dict[str, str] = {}
         self.parsed = 0
         if not os.path.isdir(os.path.join(self.src_root, ROOT_PKG)):
             raise AnalysisError('no %s under %s' % (ROOT_PKG, self.src_root))
@@ -601,11 +602,26 @@ class Index:
             if n == prefix or n.startswith(prefix + '.'):
                 yield self.module(n)
 
+    def text(self, name: str) -> str:
+        t = self._texts.get(name)
+        if t is None:
+            m = self._modules.get(name)
+            if m is not None:
+                t = m.src
+            else:
+                with open(self.module_path(name), 'rb') as f:
+                    t = f.read().decode('utf-8')
+            self._texts[name] = t
+        return t
+
     def modules_mentioning(self, *words: str, prefix: str = ROOT_PKG) -> Iterator[Module]:
-        """cheap pre-filter for whole-repo sweeps: modules whose text contains any of the words"""
-        for m in self.all_modules(prefix):
-            if any(w in m.src for w in words):
-                yield m
+        """cheap pre-filter for whole-repo sweeps: modules whose text contains any of the words
+        (only those are parsed)"""
+        for n in self.all_module_names():
+            if n == prefix or n.startswith(prefix + '.'):
+                t = self.text(n)
+                if any(w in t for w in words):
+                    yield self.module(n)
 
     # --- lookups by dotted path
     def lookup(self, path: str) -> Def:
